@@ -78,6 +78,11 @@ class CleanPass(FunctionPass):
     def find_single_predecessor_block(self, function):
         """Find a block with a single predecessor"""
         for block in function:
+            # The entry block can not be glued into a predecessor (it is
+            # where the function starts, also when it is a loop header):
+            if block.is_entry:
+                continue
+
             preds = block.predecessors
 
             # Check for amount of predecessors:
